@@ -19,6 +19,13 @@ inductive EndClass where
   | closed | blocked | spinning
   deriving DecidableEq, Repr, Inhabited
 
+def RunClass.name : RunClass → String
+  | .nil => "nil" | .canceled => "canceled" | .limit => "limit" | .passes => "passes"
+  | .noammo => "noammo" | .other => "other" | .noreturn => "noreturn"
+
+def EndClass.name : EndClass → String
+  | .closed => "closed" | .blocked => "blocked" | .spinning => "spinning"
+
 structure Cell where
   limit : Nat
   passes : Nat
@@ -68,7 +75,7 @@ def judge (c : Cell) (o : Obs) : String :=
   else if !returnsOk o then
     (if o.end_ == .spinning then "fail:spin:Run never returns, ammo file read in a loop" else "fail:hang:Run never returns")
   else if !runOk o then
-    s!"fail:run-error:Run returned {repr o.run}" ++ (if !endOk o then ", sink not closed" else "")
+    s!"fail:run-error:Run returned {o.run.name}" ++ (if !endOk o then ", sink not closed" else "")
   else if !endOk o then
     "fail:sink-open:Run returned but consumers stay blocked in Acquire (sink never closed)"
   else if !spinOk c o then
